@@ -105,7 +105,7 @@ def gen_case(ctx, stream, idx):
         return irgen.rand_ir(r, type_kinds=CORE_T + ("nested", "nested", "str", "literaldq", "literaldq"),
                              default_kinds=CORE_D + ("strodd", "strodd", "strbad"), nparams=r.randint(1, 6),
                              doc_kinds=("plain", "punct", "punct", "quoted"))
-    return irgen.rand_ir(r, type_kinds=CORE_T, default_kinds=CORE_D, nparams=0 if idx % 16 == 3 else r.randint(1, 6))
+    return irgen.rand_ir(r, type_kinds=CORE_T + ("complex",), default_kinds=CORE_D + ("imag",), nparams=0 if idx % 16 == 3 else r.randint(1, 6))
 
 
 def namespace():
@@ -248,6 +248,8 @@ def arg_value(a):
         return "2.5"
     if a.type is bool:
         return "True"
+    if a.type is complex:
+        return "1j"
     return "text"
 
 
@@ -299,6 +301,10 @@ def check_argparse(P, ctxd, fmt, cfg, ir, ns, src):
         if not same(a.default, want_d):
             dev(P, ctxd, fmt, cfg, "default", "differs", tk, dk, "%s: default=%r described %r" % (name, a.default, want_d),
                 src)
+        # a plain scalar without default has to be given on the command line
+        if typ in ("int", "float", "str", "complex") and "default" not in p and not a.required:
+            dev(P, ctxd, fmt, cfg, "required", "scalar-without-default-not-required", tk, dk,
+                "%s: %s without default yet not required" % (name, typ), src)
         # Optional[...] is never required
         if typ.startswith("Optional[") and a.required:
             dev(P, ctxd, fmt, cfg, "required", "optional-required", tk, dk, "%s: Optional yet required" % name, src)
